@@ -27,7 +27,8 @@ type CheckCfg struct {
 	ShrinkNS   int64  `json:"shrink_ns"` // -rapid.shrinktime; <0: library default
 	NoFailFile bool   `json:"nofailfile,omitempty"`
 	Verbose    bool   `json:"verbose,omitempty"`
-	Log        bool   `json:"log,omitempty"` // -rapid.log: eager output to stdout (the shards' stdout is discarded)
+	Debug      bool   `json:"debug,omitempty"` // -rapid.debug
+	Log        bool   `json:"log,omitempty"`   // -rapid.log: eager output to stdout (the shards' stdout is discarded)
 	FailFile   string `json:"failfile,omitempty"`
 	DebugVis   bool   `json:"debugvis,omitempty"`
 }
@@ -51,8 +52,11 @@ func setFlag(name, val string) {
 func applyCfg(cfg CheckCfg) {
 	setFlag("rapid.checks", strconv.Itoa(cfg.Checks))
 	steps := cfg.Steps
-	if steps <= 0 {
+	if steps == 0 {
 		steps = 30
+	}
+	if steps < 0 {
+		steps = 0 // Steps: -1 asks for -rapid.steps=0
 	}
 	setFlag("rapid.steps", strconv.Itoa(steps))
 	setFlag("rapid.seed", strconv.FormatUint(cfg.Seed, 10))
@@ -64,6 +68,7 @@ func applyCfg(cfg CheckCfg) {
 	setFlag("rapid.nofailfile", strconv.FormatBool(cfg.NoFailFile))
 	setFlag("rapid.v", strconv.FormatBool(cfg.Verbose))
 	setFlag("rapid.log", strconv.FormatBool(cfg.Log))
+	setFlag("rapid.debug", strconv.FormatBool(cfg.Debug))
 	setFlag("rapid.failfile", cfg.FailFile)
 	setFlag("rapid.debugvis", strconv.FormatBool(cfg.DebugVis))
 }
